@@ -533,6 +533,21 @@ func RunC09(t *testing.T, tape *Tape) *Outcome {
 		return o
 	}
 	if r.BudgetHit && !twin {
+		// Tasks that keep executing after the return are reported by I3 (more than the
+		// one operation in flight each). If nobody exceeded that allowance, the
+		// budget simply ran out shortly after a late return (many busy goroutines,
+		// a large k): nothing can be said about who would have exited.
+		over := false
+		for _, v := range o.Violations {
+			if v.Invariant == "I3" || v.Invariant == "I4" || v.Invariant == "I9" {
+				over = true
+			}
+		}
+		if !over {
+			o.Inconclusive = "step budget exhausted shortly after the cancelled call returned"
+			o.Violations = nil
+			return o
+		}
 		o.addV("C09", "I5", "I5 still-running phase="+phase, "tasks kept executing after the cancellation until the step budget was exhausted")
 	}
 	for _, tk := range tasks {
